@@ -66,7 +66,7 @@ Print Assumptions C24_code_eq_spec_hash2B.
 
 (* pdfcpu accepts a user password exactly when Algorithm 11 does, and recovers the same file key (2.A step e).
    FULL STATEMENT: without the hypothesis prep pw = saslprep pw.  It does not hold for pdfcpu's processInput (a PRECIS
-   identifier profile, not SASLprep): C24_accepts_iff_spec_user_aes_refuted, finding aes256-password-prep-asymmetric. *)
+   identifier profile, not SASLprep): C24_accepts_iff_spec_user_aes_refuted, finding aes256-password-prep-not-saslprep. *)
 Theorem C24_accepts_iff_spec_user_aes_partial : forall sha256 sha384 sha512 cbc_enc cbc_dec prep saslprep,
   prims_ok sha256 sha384 sha512 cbc_enc -> forall pw e,
   prep pw = saslprep pw -> (eR e = 6 -> length (eUE e) = 32%nat) ->
@@ -92,20 +92,46 @@ Qed.
 Print Assumptions C24_accepts_iff_spec_owner_aes_partial.
 
 (* the U, O, UE, OE entries pdfcpu writes (calcOAndUAES256 / Rev6, random salts and file key made explicit) are those of
-   Algorithms 8 and 9 - for passwords SASLprep leaves alone and that are at most 127 bytes long.
-   FULL STATEMENT: for every password.  It fails because the writer hashes the raw bytes: no SASLprep, no truncation
-   (C24_code_eq_spec_OU_aes_refuted; findings aes256-password-prep-asymmetric,
-   aes256-password-over-127-bytes-not-truncated-on-write). *)
-Theorem C24_code_eq_spec_OU_aes_partial : forall sha256 sha384 sha512 cbc_enc saslprep,
+   Algorithms 8 and 9 - for every password (any length, normalised or not) on which pdfcpu's preparation agrees with
+   SASLprep; when the preparation fails nothing is written.  (Since pdfcpu dd3e7ff0 the writer prepares and truncates;
+   before, the statement needed "SASLprep leaves the password alone and it is at most 127 bytes".)
+   FULL STATEMENT: without the hypotheses prep upw = saslprep upw, prep opw = saslprep opw.  processInput is a PRECIS
+   identifier profile, which is not SASLprep (C24_code_eq_spec_OU_aes_refuted, finding aes256-password-prep-not-saslprep). *)
+Theorem C24_code_eq_spec_OU_aes_partial : forall sha256 sha384 sha512 cbc_enc prep saslprep,
   prims_ok sha256 sha384 sha512 cbc_enc -> forall r upw opw vsu ksu vso kso fk,
-  prepared saslprep upw -> prepared saslprep opw ->
+  prep upw = saslprep upw -> prep opw = saslprep opw ->
   length vsu = 8%nat -> length ksu = 8%nat -> length vso = 8%nat -> length kso = 8%nat ->
-  c_calc_ou_aes sha256 sha384 sha512 cbc_enc r upw opw (vsu ++ ksu) (vso ++ kso) fk
+  c_calc_ou_aes sha256 sha384 sha512 cbc_enc prep r upw opw (vsu ++ ksu) (vso ++ kso) fk
   = spec_calc sha256 sha384 sha512 cbc_enc saslprep r upw opw vsu ksu vso kso fk.
 Proof.
-  intros sha256 sha384 sha512 cbc_enc saslprep (H1 & H2 & H3 & H4) r upw opw vsu ksu vso kso fk. intros. eapply calc_eq; section_args.
+  intros sha256 sha384 sha512 cbc_enc prep saslprep (H1 & H2 & H3 & H4) r upw opw vsu ksu vso kso fk.
+  intros. eapply calc_eq; section_args.
 Qed.
 Print Assumptions C24_code_eq_spec_OU_aes_partial.
+
+(* Full strength relative to the preparation: read the standard's "SASLprep" as the function pdfcpu uses on both sides
+   (one parameter prep, nothing assumed about it - no idempotence, every side prepares the raw input once).  Then for
+   EVERY password - longer than 127 bytes, not normalised, rejected - the entries written are those of Algorithms 8/9
+   and a password is accepted exactly when Algorithms 11 / 12 accept it, with the same file key. *)
+Theorem C24_code_eq_spec_aes_modulo_prep : forall sha256 sha384 sha512 cbc_enc cbc_dec prep,
+  prims_ok sha256 sha384 sha512 cbc_enc ->
+  (forall r upw opw vsu ksu vso kso fk,
+     length vsu = 8%nat -> length ksu = 8%nat -> length vso = 8%nat -> length kso = 8%nat ->
+     c_calc_ou_aes sha256 sha384 sha512 cbc_enc prep r upw opw (vsu ++ ksu) (vso ++ kso) fk
+     = spec_calc sha256 sha384 sha512 cbc_enc prep r upw opw vsu ksu vso kso fk) /\
+  (forall pw e, (eR e = 6 -> length (eUE e) = 32%nat) ->
+     c_validate_user_aes sha256 sha384 sha512 cbc_enc cbc_dec prep pw e
+     = spec_validate_user sha256 sha384 sha512 cbc_enc cbc_dec prep (eR e) pw (eU e) (eUE e)) /\
+  (forall pw e, pw <> [] ->
+     c_validate_owner_aes sha256 sha384 sha512 cbc_enc cbc_dec prep pw e
+     = spec_validate_owner sha256 sha384 sha512 cbc_enc cbc_dec prep (eR e) pw (eO e) (eOE e) (eU e)).
+Proof.
+  intros sha256 sha384 sha512 cbc_enc cbc_dec prep (H1 & H2 & H3 & H4). split; [|split].
+  - intros. eapply calc_eq; first [reflexivity | section_args].
+  - intros pw e Hl. eapply validate_user_aes_eq; first [reflexivity | section_args].
+  - intros pw e Hne. eapply validate_owner_aes_eq; first [reflexivity | section_args].
+Qed.
+Print Assumptions C24_code_eq_spec_aes_modulo_prep.
 
 (* the Perms entry pdfcpu writes is the one of Algorithm 10 (with zero bytes as the four "random" bytes), and
    validatePermissions accepts exactly when Algorithm 13 does - for every P that fits in 32 bits *)
@@ -121,14 +147,15 @@ Print Assumptions C24_code_eq_spec_perms.
 
 (* the hypotheses of the _partial theorems cannot be dropped (whatever the primitives: shown with toy primitives that
    satisfy prims_ok): *)
-Theorem C24_code_eq_spec_OU_aes_refuted : exists sha256 sha384 sha512 cbc_enc saslprep upw opw vsu ksu vso kso fk,
-  prims_ok sha256 sha384 sha512 cbc_enc /\ saslprep upw = Some upw /\ prepared saslprep opw /\
-  c_calc_ou_aes sha256 sha384 sha512 cbc_enc 5 upw opw (vsu ++ ksu) (vso ++ kso) fk
-  <> spec_calc sha256 sha384 sha512 cbc_enc saslprep 5 upw opw vsu ksu vso kso fk.
+Theorem C24_code_eq_spec_OU_aes_refuted : exists sha256 sha384 sha512 cbc_enc prep saslprep upw opw vsu ksu vso kso fk,
+  prims_ok sha256 sha384 sha512 cbc_enc /\ saslprep upw = Some upw /\ prep opw = saslprep opw /\
+  c_calc_ou_aes sha256 sha384 sha512 cbc_enc prep 5 upw opw (vsu ++ ksu) (vso ++ kso) fk = None /\
+  spec_calc sha256 sha384 sha512 cbc_enc saslprep 5 upw opw vsu ksu vso kso fk <> None.
 Proof.
-  exists (toy_hash 31), (toy_hash 47), (toy_hash 63), toy_cbc, (fun x => Some x), pw128, [111], salt_a, salt_b, salt_a, salt_b, (repeat 7 32).
-  split; [exact toy_prims_ok|]. split; [reflexivity|]. split; [split; [reflexivity|cbn; repeat constructor]|].
-  exact calc_truncation_witness.
+  exists (toy_hash 31), (toy_hash 47), (toy_hash 63), toy_cbc,
+    (fun x => if existsb (N.eqb 32) x then None else Some x), (fun x => Some x),
+    [109; 121; 32; 112; 97; 115; 115], [111], salt_a, salt_b, salt_a, salt_b, (repeat 7 32).
+  split; [exact toy_prims_ok|]. split; [reflexivity|]. split; [reflexivity|]. exact calc_prep_witness.
 Qed.
 Print Assumptions C24_code_eq_spec_OU_aes_refuted.
 
@@ -164,3 +191,16 @@ Example C24_nonvacuous :
   fst (c_validate_user_rc4 upw e) = true /\ fst (c_validate_owner_rc4 opw [] e) = true /\
   fst (c_validate_user_rc4 opw e) = false /\ fst (c_validate_owner_rc4 upw [] e) = false.
 Proof. vm_compute. repeat split; auto. Qed.
+
+(* non-vacuity for R5 after dd3e7ff0 (toy primitives): a 130-byte password and a password the preparation rewrites are
+   written by the code model and then accepted by it *)
+Example C24_nonvacuous_aes :
+  let prep := fun x : bytes => Some (map (fun b => if b =? 170 then 97 else b) x) in
+  forall pw, pw = repeat 120 130 \/ pw = [170; 98] ->
+  match c_calc_ou_aes (toy_hash 31) (toy_hash 47) (toy_hash 63) toy_cbc prep 5 pw [111] (salt_a ++ salt_b) (salt_a ++ salt_b) (repeat 7 32) with
+  | Some (u, o, ue, oe) =>
+    fst (c_validate_user_aes (toy_hash 31) (toy_hash 47) (toy_hash 63) toy_cbc toy_cbc prep pw
+           (mkEnc o u oe ue [] 256 0%Z 5 true [])) = VOk
+  | None => False
+  end.
+Proof. exact calc_long_witness. Qed.
